@@ -51,7 +51,7 @@ Judge(e) ==
          [] e.op = "IdentityPair" -> JIdentityPair(e)
          [] e.op \in {"TextEnc", "TextDec", "TextEncChunks", "TextDecMutate", "TextGuard", "TextBig"} -> JText(e)
          [] e.op = "RAddrAccess" -> JRAddrAccess(e)
-         [] e.op \in {"ByteSweep", "RandomSweep", "CodeSweep", "SignedMutSweep"} -> JSweepOutcome(e)
+         [] e.op \in {"ByteSweep", "RandomSweep", "CodeSweep", "SignedMutSweep", "CrossSweep"} -> JSweepOutcome(e)
          [] e.op = "MappingBodies" -> JMappingBodies(e)
          [] e.op = "ApiSweep" -> JApiSweep(e)
          [] e.op = "Misc" -> JMisc(e)
